@@ -378,12 +378,47 @@ func runC18(c *Ctx) {
 				}
 			}
 		}
-		for _, b := range cl.Blocks {
-			ret, ok := b.Instrs[len(b.Instrs)-1].(*ssa.Return)
-			if !ok || len(ret.Results) != 1 {
-				continue
+		// the values a function of the package can return: constants, phis of them, the results of helpers of the package
+		// (followed), values of a package-level table
+		var retVals []ssa.Value
+		seenFn := map[*ssa.Function]bool{}
+		seenV := map[ssa.Value]bool{}
+		var collectFn func(f *ssa.Function, d int)
+		var collectV func(v ssa.Value, d int)
+		collectV = func(v ssa.Value, d int) {
+			if v == nil || seenV[v] || d > 6 {
+				return
 			}
-			switch x := ret.Results[0].(type) {
+			seenV[v] = true
+			switch y := v.(type) {
+			case *ssa.Phi:
+				for _, e := range y.Edges {
+					collectV(e, d+1)
+				}
+			case *ssa.Call:
+				if g := y.Call.StaticCallee(); g != nil && core.FuncPkgPath(g) == langPkg && len(g.Blocks) > 0 {
+					collectFn(g, d+1)
+					return
+				}
+				retVals = append(retVals, v)
+			default:
+				retVals = append(retVals, v)
+			}
+		}
+		collectFn = func(f *ssa.Function, d int) {
+			if seenFn[f] || d > 6 {
+				return
+			}
+			seenFn[f] = true
+			for _, b := range f.Blocks {
+				if ret, ok := b.Instrs[len(b.Instrs)-1].(*ssa.Return); ok && len(ret.Results) >= 1 {
+					collectV(ret.Results[0], d)
+				}
+			}
+		}
+		collectFn(cl, 0)
+		for _, rv := range retVals {
+			switch x := rv.(type) {
 			case *ssa.Const:
 				addConst(x)
 			default:
@@ -835,7 +870,19 @@ func checkChunkIterator(c *Ctx, p *core.Prog) {
 	// R18.16 how the comments are grouped depends on where they stand, not on what they say: no branch of the producer
 	// tests a comment's text (a comment that is skipped for being blank is not delivered, and the run around it is cut)
 	nIf, bad := 0, ""
-	for _, f := range core.WithAnon(fn) {
+	var producer []*ssa.Function
+	seenP := map[*ssa.Function]bool{}
+	for _, f0 := range core.WithAnon(fn) {
+		for _, f := range pkgClosure(f0, cpPkg) {
+			for _, f2 := range core.WithAnon(f) {
+				if !seenP[f2] {
+					seenP[f2] = true
+					producer = append(producer, f2)
+				}
+			}
+		}
+	}
+	for _, f := range producer {
 		var dep func(v ssa.Value, seen map[ssa.Value]bool) bool
 		dep = func(v ssa.Value, seen map[ssa.Value]bool) bool {
 			if v == nil || seen[v] {
@@ -874,7 +921,7 @@ func checkChunkIterator(c *Ctx, p *core.Prog) {
 	}
 	c.R.Check(bad == "", "R18.16", "ChunkIterator: no branch depends on the text of a comment", p.Pos(fn.Pos()), fmt.Sprintf("%d branches, all on positions and lengths", nIf),
 		"a branch of the producer tests the text of a comment (at "+bad+"): comments are delivered or grouped differently depending on what they say - every comment has to be delivered, in maximal runs of adjacent lines")
-	c.R.RequireMin("R18.16", "branches in ChunkIterator", nIf, 3)
+	c.R.RequireMin("R18.16", "branches in ChunkIterator", nIf, 1)
 	// R18.20 a run grows comment by comment: the comment that the next one is compared with is the one that was appended
 	// last. In the loop that appends c[index] to the chunk, the loop-carried comment variable takes that same element on the
 	// way round. (If it keeps the first comment of the chunk, a run is cut after two lines.)
